@@ -523,6 +523,9 @@ def main(tier):
     rep.attempt(check_array_fills, rep, mod)
     rep.attempt(check_codelen_end, rep, mod)
     rep.attempt(check_kraft_cover, rep)
+    import probepure
+    rep.attempt(probepure.check_probe_pure, rep, mod)
+    rep.attempt(probepure.check_trunc_cmp, rep, mod)
     import asmlin, c19
     rep.attempt(asmlin.check, rep, 'INFLATE', 6, c19.field_offsets('struct inflate_state', ['next_in', 'avail_in', 'next_out', 'avail_out', 'total_out']), r'^decode_huffman_code_block_stateless_0\d$')
     import siblings, fieldinit
